@@ -82,7 +82,12 @@ fn insert_ssa_variables_impl<Cfg: SSAConfig>(
         successor_block.update_phi_statements(env);
     }
     // 3. Update dominator tree successors recursively.
-    for successor_index in dominator_tree.get_dominator_successors(current_index) {
+    // The children are visited in index order: the set has no order of its own, and the order of
+    // the visit decides both the version numbers and which undefined variable is reported.
+    let mut dominator_successors: Vec<Index> =
+        dominator_tree.get_dominator_successors(current_index).into_iter().collect();
+    dominator_successors.sort_unstable();
+    for successor_index in dominator_successors {
         env.add_variable_scope();
         insert_ssa_variables_impl::<Cfg>(successor_index, basic_blocks, dominator_tree, env)?;
         env.remove_variable_scope();
